@@ -83,40 +83,54 @@ def not_(x):
     return bnot(c)
 
 
+def _boolish(x):
+    return x.__class__ is Bit or x is True or x is False
+
+
+def _shortcircuit(thunks, is_or):
+    """value semantics of  a or b or ...  /  a and b and ...  with symbolic truth values: the rest is evaluated speculatively under the
+    guard that makes it reachable; anything that cannot be merged (or raises while speculative) falls back to forking"""
+    v = thunks[0]()
+    if len(thunks) == 1:
+        return v
+    c = as_cond(v)
+    if c is True:
+        return v if is_or else _shortcircuit(thunks[1:], is_or)
+    if c is False:
+        return _shortcircuit(thunks[1:], is_or) if is_or else v
+    GUARDS.append((c, not is_or))
+    try:
+        try:
+            rest = _shortcircuit(thunks[1:], is_or)
+        finally:
+            GUARDS.pop()
+    except Control:
+        raise
+    except Exception:
+        if GUARDS:
+            raise MergeFail("short-circuit operand failed while speculative")
+        taken = explore.decide(c)
+        if taken == is_or:
+            return v
+        return _shortcircuit(thunks[1:], is_or)
+    if _boolish(v) and _boolish(rest):
+        r = bor(c, _t(rest)) if is_or else band(c, _t(rest))
+        return r if r.__class__ is Bit else bool(r)
+    try:
+        return merge(c, v, rest) if is_or else merge(c, rest, v)
+    except MergeFail:
+        if GUARDS:
+            raise
+        taken = explore.decide(c)
+        return (v if taken else rest) if is_or else (rest if taken else v)
+
+
 def and_(*thunks):
-    acc = 1
-    last = None
-    for t in thunks:
-        v = t()
-        c = as_cond(v)
-        if c is False:
-            return v if acc == 1 and acc.__class__ is not Bit else False
-        if c is True:
-            last = v
-            continue
-        acc = band(acc, c)
-        last = acc
-    if acc.__class__ is Bit:
-        return acc
-    return last
+    return _shortcircuit(thunks, False)
 
 
 def or_(*thunks):
-    acc = 0
-    last = None
-    for t in thunks:
-        v = t()
-        c = as_cond(v)
-        if c is True:
-            return v if acc.__class__ is not Bit else True
-        if c is False:
-            last = v
-            continue
-        acc = bor(acc, c)
-        last = acc
-    if acc.__class__ is Bit:
-        return acc
-    return last
+    return _shortcircuit(thunks, True)
 
 
 def _cmp1(op, a, b):
@@ -287,6 +301,19 @@ def peek(thunk):
         return thunk()
     except (NameError, AttributeError, KeyError, IndexError):
         return UNBOUND
+
+
+def peek_copy(thunk):
+    """pre-state snapshot of a target that the branch may mutate in place"""
+    v = peek(thunk)
+    if v is UNBOUND:
+        return v
+    import copy
+    from bitarray import bitarray
+    from sxl.sbytes import SByteArray
+    if isinstance(v, (list, dict, set, bytearray, bitarray, SByteArray, SymArray)) or isinstance(v, _np.ndarray):
+        return copy.copy(v)
+    return v
 
 
 def bound(x):
@@ -508,7 +535,10 @@ def enum_lookup(cls, value):
     alts = []
     hit = 0
     for m in cls:
-        g = _t(as_cond(m.value == value)) if isinstance(m.value, int) and not isinstance(m.value, bool) else 0
+        if isinstance(m.value, tuple) and isinstance(value, tuple):
+            g = _t(as_cond(eq_any(value, m.value)))
+        else:
+            g = _t(as_cond(m.value == value)) if isinstance(m.value, int) and not isinstance(m.value, bool) else 0
         if g.__class__ is Bit or g:
             alts.append((g, m))
             hit = bor(hit, g)
@@ -822,6 +852,10 @@ def _isinstance(obj, cls):
         if (bytearray in classes and mutable) or (bytes in classes and not mutable):
             return True
         return isinstance(obj, cls)
+    from sxl.sstr import SStr
+    if obj.__class__ is SStr:
+        classes = cls if isinstance(cls, tuple) else (cls,)
+        return str in classes or isinstance(obj, cls)
     if obj.__class__ is Choice:
         rs = {isinstance(v, cls) for _, v in obj.alts}
         if len(rs) == 1:
@@ -1076,7 +1110,7 @@ def call(f, *a, **k):
         return h(*a, **k)
     if isinstance(f, type) and issubclass(f, enum.Enum) and len(a) == 1 and not k:
         v = a[0]
-        if v.__class__ is Bit or v.__class__ is SInt:
+        if v.__class__ is Bit or v.__class__ is SInt or (v.__class__ is tuple and any(_sym(e) for e in v)):
             return enum_lookup(f, v)
         if v.__class__ is Choice:
             return v.map(lambda x: f(x))
